@@ -227,6 +227,7 @@ type World struct {
 	CtxDone    *Chan[struct{}]
 	CtxErr     error
 	CtxExpired bool
+	CtxKids    any // contexts derived from the world's context (package vcontext)
 	// process
 	Proc ProcState
 	// timers
